@@ -835,3 +835,24 @@ fn eval_operand<'a>(
         Operand::Value(v) => v,
     }
 }
+
+/// Verification hooks (only compiled with `--cfg roto_verif`): the private
+/// operations of [`Memory`] for the conformance checks under /verif.
+#[cfg(roto_verif)]
+impl Memory {
+    pub fn verif_push_frame(&mut self) {
+        self.push_frame(0, None, HashMap::new())
+    }
+
+    pub fn verif_pop_frame(&mut self) -> bool {
+        self.pop_frame().is_some()
+    }
+
+    pub fn verif_offset_by(&mut self, p: usize, offset: usize) -> usize {
+        self.offset_by(p, offset)
+    }
+
+    pub fn verif_copy(&mut self, to: usize, from: usize, size: usize) {
+        self.copy(to, from, size)
+    }
+}
